@@ -97,6 +97,11 @@ CHECKS = {
             "Each history is compiled once and run with several tapes; between per-call markers the TONE/NOTONE/DELAY events of the buzzer pin and the printed getter values must satisfy the protocol model: no tone for f <= 0, silence and get_state() false after every call with a duration, exact beep counts and gaps, sweep slot count/monotonicity/end points/total delay, melody order/count/rests/durations with default tempo for tempo <= 0, bounded delays, and get_frequency/get_last_frequency tracking.",
             "Score notes are copied from the emitter table (consistency only); tone() hardware limits not modelled.",
             "DESIGN.md 3/C16"),
+    "C17": ("translation_validation",
+            "generated LCD operation histories on generated geometries/wirings with literal and tape-fed run-time texts; after every operation the mock display's cell matrix is dumped and compared with the host LCD buffer; rule checks for progress bars, backlight level and glyph bytes",
+            "The mock LiquidCrystal/LiquidCrystal_I2C keep the visible cols x rows cell matrix and flag any write outside it; after each generated operation both the firmware and the host LCD class dump the display and must agree cell for cell (rows holding a progress bar off a cell boundary may differ by one fill cell), progress fill must be monotone and saturating on both sides, the backlight pin must sit at (on ? brightness : 0) and createChar bytes must equal the host's glyphs.",
+            "Printable ASCII texts only; in-range row/col; mock models the visible window only.",
+            "DESIGN.md 3/C17"),
 }
 
 PENDING = {}
